@@ -385,7 +385,21 @@ pub fn structured_hostile(r: &mut StdRng, num: u16) -> Vec<(Vec<u8>, &'static st
         for (nsat, per) in [(13u64, 31u64), (63, 31), (21, 19), (30, 13), (13, 30), (63, 6), (63, 7), (0, 0), (1, 31), (12, 31), (13, 29)] {
             out.push((bias_frame(r, num, nsat, per, &codes), "bias-counts"));
             // the same counts with reserved signal codes mixed in
-            out.push((bias_frame(r, num, nsat, per, &[0, 31, 1, 20]), "bias-reserved-codes"));
+            let rf = bias_frame(r, num, nsat, per, &[0, 31, 1, 20]);
+            // ... and cut short at a few places (a reserved code may then be the last thing in the body)
+            if rf.len() > 16 {
+                for _ in 0..3 {
+                    let cut = r.gen_range(8..rf.len() - 6);
+                    out.push((mk_frame(&rf[3..3 + cut], 0), "bias-reserved-codes-cut"));
+                }
+            }
+            out.push((rf, "bias-reserved-codes"));
+        }
+    }
+    if num == 1059 || num == 1065 {
+        let rf = bias_frame(r, num, 2, 3, &[31, 0, 20]);
+        for cut in 8..rf.len() - 6 {
+            out.push((mk_frame(&rf[3..3 + cut], 0), "bias-reserved-codes-cut"));
         }
     }
     if (1071..=1137).contains(&num) && (num % 10) >= 1 && (num % 10) <= 7 {
